@@ -1,39 +1,60 @@
 #!/usr/bin/env python3
-"""Negative-control runner: apply one patch to a scratch copy of /repo (outside /repo and /verif),
-run the given checks against it (static analysis only — the mutant is never executed) and remove
-the copy.  usage: mutate.py <patch> <ID> [<ID>...] [--keep] [--tests]
-prints one line per check: `<patch> <ID> exit=<n> <first violation line>`"""
-import os, shutil, subprocess, sys, tempfile, json
+"""Negative-control runner.  Applies the edits of mutants/defs.py (or a unified diff) to a scratch
+copy of /repo outside /repo and /verif, runs the given checks against the copy (static analysis
+only — the mutant is never executed unless --tests is given, which runs the repository's own
+suite on it) and removes the copy.
+usage: mutate.py <mutant-id|file.patch|file.diff> [<ID>...] [--keep] [--tests]
+       mutate.py --all [--prop C08] [--tests] [-j N]"""
+import os, shutil, subprocess, sys, tempfile, json, importlib.util
+from concurrent.futures import ThreadPoolExecutor
 VERIF = os.path.dirname(os.path.dirname(os.path.dirname(os.path.abspath(__file__))))
 REPO = os.environ.get("VERIF_REPO", "/repo")
+SCR = os.environ.get("VERIF_SCRATCH", "/tmp")
 
-def make_scratch(patch):
-    d = tempfile.mkdtemp(prefix="vscratch-", dir=os.environ.get("VERIF_SCRATCH", "/tmp"))
+def load_defs():
+    spec = importlib.util.spec_from_file_location("defs", os.path.join(VERIF, "mutants", "defs.py"))
+    mod = importlib.util.module_from_spec(spec); spec.loader.exec_module(mod)
+    return {m["id"]: m for m in mod.MUTANTS}
+
+def make_scratch(mut):
+    d = tempfile.mkdtemp(prefix="vscratch-", dir=SCR)
     subprocess.run(["rsync", "-a", "--exclude", "target", "--exclude", ".git", REPO + "/", d + "/"], check=True)
-    r = subprocess.run(["patch", "-p1", "-s", "--no-backup-if-mismatch", "-i", os.path.abspath(patch)], cwd=d, capture_output=True, text=True)
-    if r.returncode != 0:
+    if isinstance(mut, str):
+        for tool in (["git", "apply", "--whitespace=nowarn", os.path.abspath(mut)], ["patch", "-p1", "-s", "--no-backup-if-mismatch", "-i", os.path.abspath(mut)]):
+            r = subprocess.run(tool, cwd=d, capture_output=True, text=True)
+            if r.returncode == 0:
+                return d, ""
         shutil.rmtree(d, ignore_errors=True)
-        return None, r.stdout + r.stderr
+        return None, (r.stdout + r.stderr).strip()[:300]
+    for rel, old, new in mut["edits"]:
+        p = os.path.join(d, rel)
+        s = open(p).read()
+        if s.count(old) != 1:
+            shutil.rmtree(d, ignore_errors=True)
+            return None, "edit anchor occurs %d times in %s" % (s.count(old), rel)
+        open(p, "w").write(s.replace(old, new))
     return d, ""
 
-def run_checks(patch, ids, keep=False, tests=False):
-    d, err = make_scratch(patch)
-    res = []
+def run_checks(mut, ids, keep=False, tests=False, name=None):
+    name = name or (mut if isinstance(mut, str) else mut["id"])
+    d, err = make_scratch(mut)
     if d is None:
-        return [{"patch": patch, "id": i, "status": "skipped", "why": "patch does not apply: " + err.strip()[:200]} for i in ids]
-    out = tempfile.mkdtemp(prefix="vout-", dir=os.environ.get("VERIF_SCRATCH", "/tmp"))
+        return [{"mutant": name, "id": i, "status": "skipped", "why": "does not apply: " + err} for i in ids]
+    res = []
+    out = tempfile.mkdtemp(prefix="vout-", dir=SCR)
     try:
         if tests:
             t = subprocess.run(["cargo", "test", "--workspace", "--offline", "-q"], cwd=d, capture_output=True, text=True,
                                env=dict(os.environ, CARGO_NET_OFFLINE="true", CARGO_TARGET_DIR=os.path.join(VERIF, ".cache", "target-tests")))
-            res.append({"patch": patch, "id": "tests", "status": "pass" if t.returncode == 0 else "FAIL", "why": (t.stdout + t.stderr)[-300:] if t.returncode else ""})
+            res.append({"mutant": name, "id": "tests", "status": "green" if t.returncode == 0 else "RED", "why": (t.stdout + t.stderr)[-300:].replace("\n", " ") if t.returncode else ""})
         for i in ids:
             env = dict(os.environ, VERIF_REPO=d, VERIF_OUT=out)
             r = subprocess.run([os.path.join(VERIF, "check"), i], cwd=VERIF, capture_output=True, text=True, env=env)
-            lines = [l for l in r.stdout.splitlines() if l.startswith("VIOLATION") or l.startswith("  ")]
             detail = [l for l in r.stdout.splitlines() if l.startswith("  ")]
-            res.append({"patch": patch, "id": i, "status": "fired" if r.returncode == 1 else ("silent" if r.returncode == 0 else "error"),
-                        "why": (detail[0].strip()[:400] if detail else (r.stdout + r.stderr)[-400:] if r.returncode == 2 else ""), "n": len([l for l in lines if l.startswith("VIOLATION")])})
+            nv = len([l for l in r.stdout.splitlines() if l.startswith("VIOLATION")])
+            rules = sorted(set(l.split()[2] for l in detail if len(l.split()) > 2))
+            res.append({"mutant": name, "id": i, "status": "fired" if r.returncode == 1 else ("silent" if r.returncode == 0 else "error"), "n": nv, "rules": rules,
+                        "why": (detail[0].strip()[:300] if detail else ((r.stdout + r.stderr)[-300:] if r.returncode == 2 else ""))})
     finally:
         shutil.rmtree(out, ignore_errors=True)
         if not keep:
@@ -41,6 +62,25 @@ def run_checks(patch, ids, keep=False, tests=False):
     return res
 
 if __name__ == "__main__":
-    a = [x for x in sys.argv[1:] if not x.startswith("--")]
-    for r in run_checks(a[0], a[1:], keep="--keep" in sys.argv, tests="--tests" in sys.argv):
-        print("%-40s %-6s %-7s n=%s %s" % (os.path.basename(r["patch"]), r["id"], r["status"], r.get("n", "-"), r["why"]))
+    a = [x for x in sys.argv[1:] if not x.startswith("-")]
+    flags = [x for x in sys.argv[1:] if x.startswith("-")]
+    defs = load_defs()
+    jobs = []
+    if "--all" in flags:
+        prop = None
+        if "--prop" in sys.argv:
+            prop = sys.argv[sys.argv.index("--prop") + 1]
+            a = [x for x in a if x != prop]
+        for m in defs.values():
+            ids = [p for p in m["props"] if prop is None or p == prop]
+            if ids:
+                jobs.append((m, ids))
+    else:
+        mut = defs.get(a[0], a[0])
+        ids = a[1:] or (mut["props"] if isinstance(mut, dict) else [])
+        jobs.append((mut, ids))
+    nj = int(sys.argv[sys.argv.index("-j") + 1]) if "-j" in sys.argv else 4
+    with ThreadPoolExecutor(max_workers=nj) as ex:
+        for rs in ex.map(lambda j: run_checks(j[0], j[1], keep="--keep" in flags, tests="--tests" in flags), jobs):
+            for r in rs:
+                print("%-44s %-6s %-7s n=%-2s %s %s" % (r["mutant"][:44], r["id"], r["status"], r.get("n", "-"), ",".join(r.get("rules", [])), r["why"][:220]))
